@@ -209,6 +209,11 @@ bool Parser::parseStatement(StatementSyntax*& stmt, StatementContext stmtCtx)
                                     && ambigStmt->declStmt_->decl_,
                                  return false,
                                  "invalid ambiguous statement");
+                    if (ambigStmt->exprStmt_->expr_->extKwTkIdx_ != LexedTokens::invalidIndex()
+                            || ambigStmt->declStmt_->decl_->extKwTkIdx_ != LexedTokens::invalidIndex()) {
+                        diagReporter_.UnexpectedGNUExtensionFlag();
+                        return false;
+                    }
                     ambigStmt->exprStmt_->expr_->extKwTkIdx_ = extKwTkIdx;
                     ambigStmt->declStmt_->decl_->extKwTkIdx_ = extKwTkIdx;
                     break;
